@@ -209,6 +209,7 @@ type mapBarrier struct {
 }
 
 type State struct {
+	fvLinked map[int64]bool // function values whose contract has been stated as a fact on this path
 	pc      []*Term
 	env     map[ssa.Value]*Term
 	heap    map[string]*Term
@@ -238,6 +239,7 @@ func (s *State) clone() *State {
 		allocd:  append([]*Term(nil), s.allocd...),
 		iters:   make(map[ssa.Value]*iterInfo, len(s.iters)),
 		initMod: s.initMod,
+		fvLinked: copyBoolMap(s.fvLinked),
 		idx:     append([]*Term(nil), s.idx...),
 		lastCut: s.lastCut,
 	}
@@ -804,4 +806,15 @@ func (u unsupported) Error() string { return u.msg }
 
 func unsup(format string, a ...any) {
 	panic(unsupported{fmt.Sprintf(format, a...)})
+}
+
+func copyBoolMap(m map[int64]bool) map[int64]bool {
+	if m == nil {
+		return nil
+	}
+	n := make(map[int64]bool, len(m))
+	for k, v := range m {
+		n[k] = v
+	}
+	return n
 }
